@@ -56,7 +56,7 @@ def call_code(info, p, ev, target, side, direction, port_label):
     n = len(ev['formals'])
     lines = ['long id = ++vf::S().calls;']
     for i, f in enumerate(ev['formals']):
-        base = t.formal_type(itf, f).rstrip('&')
+        base = t.local_type(itf, f)
         lines.append(f'{base} a{i}; a{i}.v = id * 1000 + {i};')
     vals = ', '.join(f'a{i}.v' for i in range(n))
     args = ', '.join(f'a{i}' for i in range(n))
